@@ -1,9 +1,47 @@
 import ConfModel.Driver.Common
+import ConfModel.Driver.C01
+import ConfModel.Driver.C02
+import ConfModel.Driver.C03
+import ConfModel.Driver.C04
+import ConfModel.Driver.C05
+import ConfModel.Driver.C06
+import ConfModel.Driver.C07
 import ConfModel.Driver.C08
+import ConfModel.Driver.C09
+import ConfModel.Driver.C10
+import ConfModel.Driver.C11
+import ConfModel.Driver.C12
+import ConfModel.Driver.C13
+import ConfModel.Driver.C14
+import ConfModel.Driver.C15
+import ConfModel.Driver.C16
+import ConfModel.Driver.C17
+import ConfModel.Driver.C18
+import ConfModel.Driver.C19
+import ConfModel.Driver.C20
 open ConfModel.Driver
 
 def handlers : List (String × Handler) := [
-  ("c08", ConfModel.Driver.C08.handle)
+  ("c01", ConfModel.Driver.C01.handle),
+  ("c02", ConfModel.Driver.C02.handle),
+  ("c03", ConfModel.Driver.C03.handle),
+  ("c04", ConfModel.Driver.C04.handle),
+  ("c05", ConfModel.Driver.C05.handle),
+  ("c06", ConfModel.Driver.C06.handle),
+  ("c07", ConfModel.Driver.C07.handle),
+  ("c08", ConfModel.Driver.C08.handle),
+  ("c09", ConfModel.Driver.C09.handle),
+  ("c10", ConfModel.Driver.C10.handle),
+  ("c11", ConfModel.Driver.C11.handle),
+  ("c12", ConfModel.Driver.C12.handle),
+  ("c13", ConfModel.Driver.C13.handle),
+  ("c14", ConfModel.Driver.C14.handle),
+  ("c15", ConfModel.Driver.C15.handle),
+  ("c16", ConfModel.Driver.C16.handle),
+  ("c17", ConfModel.Driver.C17.handle),
+  ("c18", ConfModel.Driver.C18.handle),
+  ("c19", ConfModel.Driver.C19.handle),
+  ("c20", ConfModel.Driver.C20.handle)
 ]
 
 def main (args : List String) : IO UInt32 := do
